@@ -72,6 +72,9 @@ func verifC01(n, shape, domLen, urlLen, srcLen, srcTail int) {
 		src += verifC01Tails[srcTail]
 	}
 	req := &rules.Request{URL: u, URLLowerCase: u, SourceHostname: src}
+	if src != "" {
+		req.SourceDomain = rules.VerifSourceDomain(src) // as NewRequest fills it
+	}
 	rs := make([]*rules.NetworkRule, n)
 	for i := 0; i < n; i++ {
 		sl := (shape >> (8 * i)) & 0xf
@@ -169,6 +172,9 @@ func verifC19Tables(n, shape, domLen, urlLen, srcLen, srcTail int) {
 		src += verifC01Tails[srcTail]
 	}
 	req := &rules.Request{URL: u, URLLowerCase: u, SourceHostname: src}
+	if src != "" {
+		req.SourceDomain = rules.VerifSourceDomain(src) // as NewRequest fills it
+	}
 	rs := make([]*rules.NetworkRule, n)
 	inMemory := make([]bool, n)
 	for i := 0; i < n; i++ {
